@@ -21,7 +21,7 @@ def Res.shift : Res → Res
   | r => r
 
 /-- does open directive `f` take `h`, and how -/
-def admit (f h : Head) : Option Res :=
+def admitIn (f h : Head) : Option Res :=
   if allowedIn f.kind h.kind then
     if isHTTPMethod h.kind && h.hasPath && f.kind == .URL then some (.methodRoot 0)
     else some (.child 0)
@@ -40,7 +40,7 @@ def reachesRoot (fs : List Head) : Bool := fs.all (fun f => !f.explicit)
 def firstAdmitting (h : Head) : List Head → Option Res
   | [] => none
   | f :: fs =>
-    match admit f h with
+    match admitIn f h with
     | some r => some r
     | none => (firstAdmitting h fs).map Res.shift
 
